@@ -328,6 +328,40 @@ def run(env) -> Result:
                 check_input(eng, res, L, tree, cfg, data, sigs)
         if len(eng.lines) > 5000:
             eng.flush()
+    # (c2) the other spellings of the byte order: '!' is big endian, '@' and '=' are the host's order; unit, bit order and dump must be
+    #      those of the canonical spelling (found missing for '@' / '=': fixed F57)
+    import sys as _sys
+    srnd = mkrng(env["seed"], "c06-spellings")
+    host = "<" if _sys.byteorder == "little" else ">"
+    pool = [t for t in trees if any(f["bits"] for f in t[1])]
+    srnd.shuffle(pool)
+    for tree in pool[: (40 if tier == "quick" else 600)]:
+        spelling, canonical = srnd.choice([("@", host), ("=", host), ("!", ">")])
+        align, compiled = srnd.random() < 0.5, srnd.random() < 0.5
+        La, ea = load(tree, endian=spelling, align=align, compiled=compiled)
+        Lc, ec = load(tree, endian=canonical, align=align, compiled=compiled)
+        if La is None or Lc is None:
+            if (La is None) != (Lc is None):
+                eng.report(f"a bit-field definition loads under endian {canonical!r} but not under {spelling!r} (or the reverse): {ea or ec}",
+                           {"definition": defs.render_struct('T', tree), "align": align, "compiled": compiled}, [])
+            continue
+        size = (Lc.T.size or 24) + 4
+        for data in [b"\xff" * size, bytes([0x80] * size), bytes([0x01] * size)] + [rand_bytes(srnd, size) for _ in range(3)]:
+            res.count(("spelling", La.text, spelling, align, compiled, data), True)
+            res.feat(f"endian-spelling:{spelling}")
+            ra, rc = real_parse(La.T, data, 0)[0], real_parse(Lc.T, data, 0)[0]
+            cd = {"definition": La.text, "endian": spelling, "canonical": canonical, "align": align, "compiled": compiled, "data": data.hex()}
+            if ra[0] != rc[0] or (ra[0] == "ok" and (not impl.same_val(ra[1], rc[1]) or ra[2] != rc[2])):
+                eng.report(f"bit-fields under endian {spelling!r} parse to {str(ra)[:160]}, under {canonical!r} (the same byte order) to {str(rc)[:160]}", cd, [])
+                continue
+            if ra[0] == "ok":
+                try:
+                    da, dcn = La.T(data).dumps(), Lc.T(data).dumps()
+                except Exception as e:  # noqa: BLE001
+                    eng.report(f"a value parsed under endian {spelling!r} cannot be dumped: {type(e).__name__}: {e}", cd, [])
+                    continue
+                if da != dcn:
+                    eng.report(f"bit-fields under endian {spelling!r} dump to {da.hex()}, under {canonical!r} to {dcn.hex()}: writing is not the inverse of reading", cd, [])
     # (d) endianness histories on one instance
     endian_histories(eng, res, rnd, tier, trees)
     eng.flush()
